@@ -229,7 +229,6 @@ class SimulatorTask(experiment.runtime.task.Task, object):
 
                 # VV: Update profiling information
                 self._real_epoch_finished = datetime.datetime.now().strftime("%d%m%y-%H%M%S")
-                self._real_state = SimulatorTaskState.finished
                 if self._real_return_code is None:
                     self._real_return_code = self._expected_exit_code
                     with open(os.path.join(working_dir, 'finished.txt'), 'a') as f:
@@ -255,9 +254,17 @@ class SimulatorTask(experiment.runtime.task.Task, object):
                         self.log.critical(fail_message)
                         f.write('%s\n' % fail_message)
 
+                # poll() copies _real_state and _real_return_code without holding _sim_condition: publish the state
+                # last, so that a task which is observed as finished always has its return code
+                self._real_state = SimulatorTaskState.finished
+
         self.log.debug('Done execution (%s)' % self._real_return_code)
 
     def poll(self):
+        # The state is read BEFORE the return code and published AFTER it: _run() sets the return code before it
+        # sets the state to finished, so a task that is observed as finished always has its return code
+        # (this method does not hold _sim_condition)
+        real_state = self._real_state
         self._observed_return_code = self._real_return_code
 
         # VV: No wait-time, some pend-start-time, and no pre-execution-time
@@ -270,8 +277,7 @@ class SimulatorTask(experiment.runtime.task.Task, object):
         idx = self.schedulingData.indexOfColumnWithHeader('epoch-finished')
         self.schedulingData.matrix[0][idx] = self._real_epoch_finished
 
-        self._observed_state = self._real_state
-        self._observed_return_code = self._real_return_code
+        self._observed_state = real_state
 
         self.log.debug('Polling (%s, %s)' % (
             self._real_state,
